@@ -144,6 +144,20 @@ async def run_history(loop: vclock.VLoop, hist: dict) -> dict:
                             rec["overlap"] = f"refused: {e}"[:80]
                         await task
                         rec["n_pkts"] = len(pkts)
+                    elif op["kind"] == "restore-cancelled":
+                        # the application abandons a restore mid-way (e.g. its own wait_for() timed out): the operation did not succeed,
+                        # and the gateway must be running exactly as before
+                        schema, pkts = gwy.get_state(include_expired=True)
+                        task = loop.create_task(gwy._restore_cached_packets(pkts))
+                        for _ in range(op.get("hops", 3) * 3):
+                            await asyncio.sleep(0)
+                        task.cancel()
+                        try:
+                            await task
+                            rec["cancel"] = "finished-first"
+                        except asyncio.CancelledError:
+                            rec["cancel"] = "cancelled"
+                        rec["n_pkts"] = len(pkts)
                     elif op["kind"] == "snapshot":
                         schema, pkts = gwy.get_state(include_expired=op.get("include_expired", False))
                         rec["n_pkts"] = len(pkts)
